@@ -269,7 +269,7 @@ class Contract:
         suspends = self.suspends if self.suspends is not None else fi.is_async
         label = f"call:{self.key.rsplit('.', 2)[-2]}.{self.key.rsplit('.', 1)[-1]}@{getattr(node, 'lineno', 0)}"
         if suspends and eng.tree == "async":
-            it.suspend(st, label)
+            it.suspend(st, label, cancellable=getattr(self, "cancellable", True))
         c = Ctx(eng, st, fi, cargs, st.snapshot_heap(), self_v)
         c.interp = it
         c.at_call = True
